@@ -4,7 +4,11 @@ BASELINE_OFF = ("cd /repo && env -u LOKY_VERIF /venv/bin/python -m pytest -ra -q
 HOOKS = {"guard": "LOKY_VERIF", "enable": "LOKY_VERIF=1 in the environment of the checked process (no hook commit exists yet)",
          "baseline_off_cmd": BASELINE_OFF, "source_commits": [], "add_only": True}
 ENGINES = [
-    {"name": "E2", "path": "harness/e2.py", "serves_properties": ["C15", "C16", "C17"],
+    {"name": "E1", "path": "harness/e1.py + harness/simengine/", "serves_properties": ["C01", "C02", "C03", "C04", "C05", "C06", "C07", "C08", "C18", "C19"],
+     "kind_free_text": "deterministic scheduler + simulated kernel running loky's real executor code, in lock-step with the Lean model M1, judged by property oracles"},
+    {"name": "E3", "path": "harness/props/c18_scn.py, harness/props/c02_scn.py", "serves_properties": ["C02", "C06", "C18"],
+     "kind_free_text": "real-process scenarios observed through /proc, exit statuses and sentinels"},
+    {"name": "E2", "path": "harness/e2.py", "serves_properties": ["C02", "C03", "C06", "C11", "C15", "C16", "C17", "C18", "C19"],
      "kind_free_text": "in-process differential: real function with substituted environment vs compiled Lean model driver, plus a statement-level oracle"},
 ]
 NOTES = ("Technique: machine-checked proof in Lean 4 over hand-written models, tied to /repo by a correspondence check "
@@ -12,7 +16,90 @@ NOTES = ("Technique: machine-checked proof in Lean 4 over hand-written models, t
          "correspondence and the implementation-side oracle, replays known findings and writes evidence/<id>.json.")
 STD_NOTE = ("Trusted: Lean kernel + axioms propext/Classical.choice/Quot.sound (audited per theorem each run); the hand-written "
             "model as validated by the differential run; the harness's environment substitution. ")
+E1NOTE = ("E1 runs loky's REAL process_executor.py / queues.py (and the stdlib Queue code they use), loaded from the working tree, over a "
+          "simulated kernel (semaphores, pipes, sentinels, threads, processes) under a seeded scheduler with adversarial time-outs and worker "
+          "crashes at every announced operation; single-executor runs are compared step by step (operation label, enabled set, observable state) "
+          "with the Lean model M1 (LokyModel/Exec.lean). Assumed: actors are pre-empted only at announced operations; pipes unbounded; pickling "
+          "real; cyclic GC not modelled; get_reusable_executor/_resize are executed by E1 but are outside M1. ")
 CLAIMS = {
+    "C01": {
+        "engine": "E1", "design_ref": "§5 C01, §4", "drivers": ["exec_driver"],
+        "technique": "Lean 4: operation-level model M1 of the executor (users, manager, feeder, workers; every lock/pipe/sentinel), kernel-checked witness schedules of the known hangs, lock-ownership invariant for all reachable states; lock-step correspondence of M1 with the real code under a deterministic scheduler + liveness oracle",
+        "text": ("PARTIAL. The full property is false of the code and of the faithful model: theorems C01_witness_D4/D5/D7 prove, by kernel evaluation of concrete schedules of M1, reachable states where nothing can move while a future is unresolved or shutdown(wait=True) has not returned; the same schedules are replayed on the real code on every run (KNOWN-FINDING D4, D5, D7). "
+                 "Proved for ALL reachable states (any workers/tasks/threads/schedule/time-outs/crashes): the processes-management lock is a mutex with an identified holder (value 0 iff held; at most one of {submitting thread in _adjust_process_count, manager in its pid/respawn/join sections, idle worker deciding to leave} inside); timed waits and try-locks always have an enabled step. "
+                 "NOT yet proved: the composite no-stuck + termination-measure theorem outside the finding classes. "
+                 "Decided on the real code each run: 1.6k (quick) / 4*10^4 (thorough) seeded schedules over 9 scenario families with the oracle 'at quiescence every future is done, every API call returned, no thread died, no livelock'; failures are attributed to a listed finding only if the stuck configuration satisfies that finding's predicate, anything else is a violation."),
+        "note": STD_NOTE + E1NOTE,
+    },
+    "C02": {
+        "engine": "E1+E2+E3", "design_ref": "§5 C02", "drivers": ["exec_driver", "killtree_driver"],
+        "technique": "Lean 4 theorems over M1 (detection at wait, terminate_broken: flag, fail-all, kill loop) and over a model of kill_process_tree/exit-code naming; lock-step + crash-at-every-operation runs of the real executor code; differential and real-process runs of the kill tree",
+        "text": ("Executor part - theorems over M1: a wait whose sentinel list contains a dead worker is enabled and, with no result/wake-up pending, can only continue to the TerminatedWorkerError path; the list waited on is the list of registered workers when the wait is announced; terminate_broken sets broken+shutdown under the lock, fails every pending non-cancelled future with the pool error and no other future (failAll_spec, any list of ids), a later submit raises without creating a future, the kill loop needs no other actor. "
+                 "Whole-run clauses (every unresolved future fails / later submit raises the same object / all workers dead) are decided on the real code: 1.4k quick schedules with a crash variant at every worker operation, oracle C02 (+C03 no fabricated value). PARTIAL: liveness of detection is C01's; known findings D5, D7. "
+                 "Kill-tree part - theorems (every finite forest): after kill_process_tree no subtree member runs, only members were signalled, children before parents, exit-code formatting; correspondence on 3.6k fake forests + 18 real trees (quick)."),
+        "note": STD_NOTE + E1NOTE + "Kill tree: pgrep/psutil listings assumed complete, no fork during the call.",
+    },
+    "C03": {
+        "engine": "E2+E1", "design_ref": "§5 C03", "drivers": ["chunks_driver", "exec_driver"],
+        "technique": "Lean 4 theorems over a model of the chunking pipeline (map == builtin map for all chunk sizes/lengths/raising functions) and decision-logic theorems over M1 (work-id issue, cancel, dispatch, routing); differential run of the real map glue; lock-step + execution-log oracle on the real executor code",
+        "text": ("Map part - theorems (all chunk sizes, any number of unbounded iterables, raising functions included): executor.map yields exactly what builtin map yields, in order, for every c >= 1; same exception after floor(k/c)*c items; chunks non-empty, concatenate to zip(*its), all but the last of size c; ValueError iff chunksize < 1. Correspondence 2*10^4 quick cases, oracle = builtin map. "
+                 "Executor part - theorems over M1 (one step each, all states): submit issues a fresh id recorded once; cancel succeeds only on PENDING; a cancelled future is never dispatched; the call item carries its own id/task; a worker answers with the id it received; the manager resolves only that id and only while pending. PARTIAL: the whole-run at-most-once theorem (token accounting) is not proved yet; it is decided on the real code by the execution-log oracle (no duplicate body, none for a successfully cancelled future, value = own result) on 1.4k quick schedules incl. time-outs, respawns, leak exits, 2 submitting threads."),
+        "note": STD_NOTE + E1NOTE + "concurrent.futures.Executor.map is represented as 'result i = _process_chunk(chunk i)'.",
+    },
+    "C04": {
+        "engine": "E1", "design_ref": "§5 C04", "drivers": ["exec_driver"],
+        "technique": "Lean 4 decision-logic theorems over M1 (feeder error path, exception results, result routing) + lock-step and containment oracle on the real executor code with real objects failing at pickling on the intended side",
+        "text": ("Theorems over M1 (one step each, all states): an unpicklable / too-large call item never reaches the pipe; the feeder error path gives the slot back, forgets the id, fails exactly its own future, leaves flags alone; a raising body (any BaseException, unpicklable result/exception) yields an ordinary result item and the worker lives on; a result touches no flag. PARTIAL: 'pool never broken in death-free runs' awaits the announce-before-exit invariant. "
+                 "Decided on the real code: 1.2k quick schedules of the contain family (every task kind at every position, callbacks that raise, full queues), oracle: own exception type/args/__cause__, PicklingError/RuntimeError for unsendable tasks, siblings correct, broken is None. Defect D10 (unpicklable exception killed the worker) was found and fixed (89540f7)."),
+        "note": STD_NOTE + E1NOTE,
+    },
+    "C05": {
+        "engine": "E1", "design_ref": "§5 C05", "drivers": ["exec_driver"],
+        "technique": "Lean 4 decision-logic theorems over M1 (flagging, is_shutting_down condition, drain-before-join, sentinel count by induction) + lock-step and drain oracle on the real executor code",
+        "text": ("Theorems over M1: shutdown/GC/exit only flag the pool under the lock and never mark it broken; the manager starts shutting down iff interpreter exit or (owner gone or shutdown) and not broken; it joins exactly when nothing is pending, else keeps serving; the flag step fails no future; submit afterwards raises without creating a future; shutdown_workers counts one sentinel per registered worker (induction over any worker list). PARTIAL: whole-run draining is decided on the real code (graceful family, 1.2k quick schedules: all pre-shutdown futures correct, exit codes 0 via handshake, threads ended, submit-after raises); known findings D4, D5, D7. Defect D3 (shutdown(wait=False) dropped what the respawn path needs) found and fixed (bb7ec29)."),
+        "note": STD_NOTE + E1NOTE,
+    },
+    "C06": {
+        "engine": "E1+E2+E3", "design_ref": "§5 C06", "drivers": ["exec_driver", "killtree_driver"],
+        "technique": "Lean 4 theorems over M1 incl. an induction over the kill loop (completes on the manager's own steps for any number of workers) + lock-step, body-starving scheduler and explicit-failure oracle on the real code; kill-tree model and real trees",
+        "text": ("Theorems over M1: shutdown(kill_workers=True) sets both flags under the lock; the manager then fails every unfinished non-cancelled future with ShutdownExecutorError, finished ones keep their outcome, nothing stays pending; C06_kill_loop_completes: for every number of registered workers the kill loop finishes in 2 manager steps per worker with no step of any other actor, leaving no worker registered and all of them dead ('time independent of the tasks' as a statement about who must move). "
+                 "Real code: 1.2k quick schedules of the kill family, half under a scheduler that never lets a task body finish (the call must still return), oracle: no future P/R after the call returned, no survivor. Known findings D5, D7 (a worker SIGKILLed while holding a lock). Defect D2 (InvalidStateError on cancelled futures killed the manager) found and fixed (525269a). Kill-tree part as C02."),
+        "note": STD_NOTE + E1NOTE,
+    },
+    "C07": {
+        "engine": "E1", "design_ref": "§5 C07", "drivers": ["exec_driver"],
+        "technique": "Lean 4 decision-logic theorems over M1 (where a time-out can fire, exit announced before exit, pid message is not a crash, respawn rule) + lock-step with time-outs firing at every enabled point on the real code",
+        "text": ("Theorems over M1 (all states): a time-out variant exists only in the idle get (its lock, its poll) and the 30 s exit handshake, never while a call item is held or a body runs; a worker leaves on queue.Empty only if it gets the management lock without blocking; the pid message precedes the wait for the exit lock; a pid message leads the manager to un-register/join, not to the broken path; the respawn rule, and no respawn once the executor object is gone (D4). PARTIAL: 'never broken in runs whose only faults are time-outs' is decided on the real code (timeouts family, p_timeout up to 0.6, all workers at once; oracle broken is None, no BrokenProcessPool on any future, no lost/duplicated task) and awaits the announce-before-exit invariant. Defect D1 (stale sentinel list after all workers timed out) found and fixed (c7fc646)."),
+        "note": STD_NOTE + E1NOTE,
+    },
+    "C08": {
+        "engine": "E1", "design_ref": "§5 C08", "drivers": ["exec_driver"],
+        "technique": "Lean 4 inductive invariants over all reachable states of M1 (mutual exclusion of the management lock with ghost owner; registered workers <= max_workers) + lock-step, per-step counting oracle and saturation runs on the real code",
+        "text": ("Theorems for EVERY reachable state of M1 (any max_workers, tasks, threads, schedule, time-outs, crashes): registered workers <= max_workers (C08_registered_le); a thread committed to a spawn has re-checked the bound and still has room; spawners are mutually exclusive (at most one holder of the management lock, identified); the lock is binary. "
+                 "Real code: 1.4k quick schedules, oracle at every step len(_processes) <= max_workers and executing bodies <= max_workers; delivery clause: saturate family under a scheduler that never finishes a body - when nothing else can move exactly min(max_workers, submitted) bodies execute. Not covered by M1: resizes (max_workers constant in the model); executing <= max as a theorem."),
+        "note": STD_NOTE + E1NOTE,
+    },
+    "C11": {
+        "engine": "E2", "design_ref": "§5 C11", "drivers": ["tracker_driver"],
+        "technique": "Lean 4 theorems over an implementation-shaped model of the resource tracker's main(fd) loop refined to the one-line counter bal + differential correspondence against the real main(fd) run in a forked child on generated byte streams + a reference counter written from the statement",
+        "text": ("Theorems (every finite byte stream, every ASCII name incl. ':' / blanks / empty, three resource types, every behaviour of the clean-up functions): the registry's count of every key equals bal = registrations minus accepted maybe_unlinks since the last unregister and every stored count is >= 1; a clean-up of (k,n) happens at a request iff it is MAYBE_UNLINK k n with bal = 1 before it, at most once per request, never while the count stays positive, never after an unregister, at most once between two registrations, exactly once over the tracker's life for a key left tracked; the sweep destroys exactly the keys with bal > 0, once each, folders after all other kinds; every malformed line and every request on an untracked key is reported, changes nothing and can be deleted from the stream; a request touches no other key; cmd:a:b:c:rtype parses to the name a:b:c. "
+                 "Correspondence: the real main(fd) in a forked child reading a real pipe, clean-up functions / excepthook / warnings replaced by recorders, effects attributed per request and registry counts observed at every readline(), vs the compiled model on 67 corpus + 5*10^3 (quick) / 10^5 (thorough) generated streams, plus an independent reference-counter oracle. Defect D11 (two-field line executed on the empty name) found and fixed (649f3a0)."),
+        "note": STD_NOTE + "Modelled, not verified: the clean-up functions themselves are parameters; verbose=0; POSIX table folder/file/semlock; client-side <=512-byte atomic writes not modelled.",
+    },
+    "C18": {
+        "engine": "E2+E3+E1", "design_ref": "§5 C18", "drivers": ["spawn_driver", "exec_driver"],
+        "technique": "Lean 4 theorems over a model of the LokyProcess launch (fd keep-list, env overlay, wait-status decoding, main-module decision) and an inductive invariant over M1 (initializer before any task on every spawn path); differential + real-process correspondence of the launch; lock-step and initializer oracle on the real executor code",
+        "text": ("Launch part - theorems (all descriptor tables, numberings, inheritable flags; all environments; all wait statuses; all parent mains): child fds = {0,1,2} U keep with keep exactly what _launch collects; no descriptor outside keep reaches the child; child env k = overlay k else parent k, empty values kept; exit code n -> n, signal s -> -s; 'loky' ships no main-module key and never re-runs __main__. Correspondence (quick): 65 536 statuses through Popen.poll, 1.4k env/keep cases, 700 real _launch runs, 28 real scenarios / 53 children observed through /proc. "
+                 "Executor part - theorem for EVERY reachable state of M1 with an initializer configured: a worker that fetches, holds or runs a call item, sends a result or announces its exit has completed the initializer (initial, re-spawned after time-out or memory-leak exit alike - one spawn path); an initializer failure ends the worker without announcement, i.e. breaks the pool. Real code: init family, oracle 'every worker in the execution log is in the initializer log, once, with the configured args'."),
+        "note": STD_NOTE + E1NOTE + "Assumed: _posixsubprocess.fork_exec(close_fds=True, pass_fds) semantics (executed for real in E3), Linux W* encoding. Resizes are executed by E1 (reuse family is in C19's part) but are outside M1.",
+    },
+    "C19": {
+        "engine": "E2+E1", "design_ref": "§5 C19", "drivers": ["depth_driver"],
+        "technique": "Lean 4 theorems over a model of _check_max_depth and depth shipping (chains of nested creations by induction) + differential correspondence on the real guard, constructor, spawn arguments and worker start-up; spawn-argument oracle on every spawn path of the real executor under E1",
+        "text": ("Theorems (all integers MAX_DEPTH, all depths, all start methods, chains of any length): creation succeeds iff (not fork or d = 0) and (MAX <= 0 or d < MAX), otherwise LokyRecursionError; workers get exactly d+1; level i of any chain is created at depth i; no chain gets deeper than MAX and without fork depth MAX is reached exactly; fork never deeper than 1; default 10. Correspondence: real _check_max_depth, constructor + _adjust_process_count + _process_worker on a recording context over the full grid MAX -3..12 x d 0..14 x 5 start methods plus 6*10^3 generated cases; error => zero Process objects created. "
+                 "E1 part: on 800 quick schedules with time-outs, leak exits, respawns and get_reusable_executor resizes, every simulated worker - whichever path spawned it - was started with current_depth = parent + 1."),
+        "note": STD_NOTE + "MAX_DEPTH equal in the whole tree; the int()/malformed classification of the env string is done by the harness. " + E1NOTE,
+    },
     "C16": {
         "engine": "E2", "design_ref": "§5 C16", "drivers": ["wrapper_driver"],
         "technique": "Lean 4 theorems over an algebraic model of the cloudpickle wrappers (reduce/rebuild with cloudpickle's round trip as a parameter) + differential correspondence against the real wrappers on generated objects",
